@@ -216,3 +216,6 @@ func (c *Ctx) FindDecl(rel, name string) (*packages.Package, *ast.FuncDecl) {
 	}
 	return p, nil
 }
+
+// Pkg is an alias for packages.Package (for tools outside this module's core).
+type Pkg = packages.Package
